@@ -553,7 +553,9 @@ def lockstep_requests(spec, tr, max_steps=None):
                     continue
                 toks = [f"pos={R(last['angular position'][j - 1])} speed={R(last['angular speed'][j - 1])}",
                         f"acc={R(last['angular acceleration'][j - 1])} mtorque={R(mot['torque'][j - 1])} pwm={R(mot['pwm'][j - 1])}",
-                        f"locked={1 if tr['locked'][j - 1] else 0} fl0={R(mot['load torque'][0])} t={R(tr['time'][j])} dt={R(dt)}"]
+                        f"locked={1 if tr['locked'][j - 1] else 0} fl0={R(mot['load torque'][0])} "
+                        # the instant with the code's own unit factor, so that exact hits of a timer edge given in the same unit stay exact
+                        f"t={R(F(tr['time_raw'][j]) * code_factor('Time', tr['time_units'][j]))} dt={R(dt)}"]
             out.append((j, 's step ' + base + ' ' + ' '.join(toks)))
         dirty = False
         first_op = False
